@@ -441,6 +441,17 @@ pub mod rec {
         pub a: Tree<u8>,
         pub b: Tree<u32>,
     }
+    #[derive(TypeInfo)]
+    pub enum Quad {
+        Leaf,
+        Node(Box<Quad>, Box<Quad>, Box<Quad>, Box<Quad>),
+    }
+    #[derive(TypeInfo)]
+    pub struct QuadForest {
+        pub a: Quad,
+        pub b: Quad,
+        pub c: Quad,
+    }
     /// the same recursive enum reached several times
     #[derive(TypeInfo)]
     pub struct Forest {
@@ -640,6 +651,7 @@ pub fn all() -> Vec<(&'static str, PortableRegistry)> {
         ("rec", reg_of::<rec::Rec>()),
         ("tree", reg_of::<rec::UsesTree>()),
         ("forest", reg_of::<rec::Forest>()),
+        ("quad_forest", reg_of::<rec::QuadForest>()),
         ("mutual", reg_of::<rec::MutA>()),
         ("assoc_skip", reg_of::<assoc::UsesHdr>()),
         ("assoc_same", reg_of::<assoc::UsesHdrSame>()),
